@@ -23,6 +23,10 @@ pub fn run(sc: &Value, id: usize, out: Out) {
 fn run_k<const K: usize>(sc: &Value, id: usize, out: Out) {
     let q = sc.get("q").and_then(|v| v.as_f64()).unwrap_or(1.0);
     let mut t: AffTree<K> = build(sc["lhs"].as_array().unwrap());
+    // "elim" scenarios: the tree is observed after an infeasible_elimination (nodes carry cached feasibility states, branches may be gone)
+    if sc.get("elim").and_then(|v| v.as_bool()).unwrap_or(false) {
+        if guarded(|| { t.infeasible_elimination(); }).is_err() { return; }
+    }
     let exps = crate::afftree::apply_pscale(&mut t, sc.get("pscale").and_then(|v| v.as_str()).unwrap_or(""));
     let tj = crate::afftree::tree_json_ps(&t, q, &exps);
     // reported path polytopes are scaled back with the exponent of the decision they come from (path edge j belongs to the j-th node of the path)
